@@ -233,6 +233,21 @@ def build() -> Check:
     ck.ob("R2.transition-lands-where-its-caller-assumes", fn_construct(cr_), bool(cr_statuses) and cr_statuses <= parked,
           f"can_resume looks at {sorted(cr_statuses)}; only parked statuses ({sorted(parked)}) may be resumed by the timer", cell="can_resume")
 
+    # R3 a branch the timer wakes looks at FRESH state: the resubmission first asks the backend (an empty checkpoint, whose response is merged) and only then
+    # runs the branch. Run on the state it parked on, the branch finds its operation unchanged, parks "until now" and is woken again at once - a spin that never
+    # looks parked to its siblings (mutscan: the refresh deleted; the only reaction was a population floor of C06)
+    ex_ = cex.methods["execute"]
+    resub_ = prog.functions.get(f"{ex_.module.name}:ConcurrentExecutor.execute.<locals>.resubmitter")
+    if resub_ is None:
+        raise AnalysisError("timer resubmission closure not found in ConcurrentExecutor.execute")
+    from sa.cfg import CFG as _CFG
+    g_r = _CFG(resub_)
+    refresh = g_r.find_calls(attr="create_checkpoint")
+    submits = g_r.find_calls(name="submit_task")
+    ck.ob("R3.resubmission-refreshes-the-state-first", fn_construct(resub_), bool(refresh) and bool(submits) and all(any(g_r.dominates(r_.idx, s_.idx) for r_ in refresh) for s_ in submits),
+          "the timer resubmits a branch without asking the backend for the current state first (no create_checkpoint() before submit_task): the branch re-reads the state it "
+          "parked on, parks 'until now' again and is resubmitted at once")
+
     # R4 the resume timer keeps a heap of tuples; the writer (schedule_resume) and the reader (_timer_loop) have to agree on the layout: the time is the
     # FIRST element (the heap orders by it), the reader peeks at the top entry [0] and takes the time from the position the writer put it in, and unpacks
     # the branch from the position the writer put it in. (The model records schedule_resume as an event; mutscan: `[0][0]` -> `[1][0]` / `[0][1]` survived.)
